@@ -38,7 +38,8 @@ def rand_scalar(rng):
 
 
 class DocGen:
-    def __init__(self, rng, max_depth=31, budget=60, nul_keys=0.0, big_ints=True, ws=True):
+    def __init__(self, rng, max_depth=31, budget=60, nul_keys=0.0, big_ints=True, ws=True, big=False):
+        self.big = big
         self.rng = rng
         self.max_depth = max_depth  # max number of enclosing containers of any value
         self.budget = budget
@@ -57,6 +58,9 @@ class DocGen:
     def string(self, is_key=False, maxitems=None):
         rng = self.rng
         n = rng.choice([0, 1, 1, 2, 3, 5, 8, 13]) if maxitems is None else rng.randrange(maxitems + 1)
+        if maxitems is None and self.big and rng.random() < 0.02:
+            n = rng.choice([31, 32, 33, 64, 127, 128, 129, 300, 1000, 5000])  # longer than the tokener's scratch buffer and its doublings
+            self.st("str.long")
         text, val = bytearray(b'"'), bytearray()
         prev_lone_high = False
         i = 0
@@ -238,6 +242,10 @@ class DocGen:
     def array(self, depth, budget):
         rng = self.rng
         n = rng.choice([0, 0, 1, 1, 2, 3, 4, 6]) if depth + 1 <= self.max_depth else 0
+        if self.big and rng.random() < 0.01 and depth < self.max_depth:
+            n = rng.choice([31, 32, 33, 64, 65, 200, 1500])  # across several array doublings
+            budget[0] = max(budget[0], 4)
+            self.st("arr.large")
         if depth == self.max_depth:
             n = 0
         text, val = bytearray(b"["), []
@@ -257,6 +265,9 @@ class DocGen:
     def object(self, depth, budget):
         rng = self.rng
         n = rng.choice([0, 0, 1, 1, 2, 3, 4, 6])
+        if self.big and rng.random() < 0.015 and depth < self.max_depth:
+            n = rng.choice([10, 11, 12, 21, 22, 23, 44, 90, 400])  # across several hash-table resizes, with duplicate names arriving late
+            self.st("obj.large")
         if depth == self.max_depth:
             n = 0
         text, val = bytearray(b"{"), {}
